@@ -176,8 +176,9 @@ func (t *Transfer) inIxfr(q *Msg, c chan *Envelope) {
 			}
 			// This serial is important
 			serial = in.Answer[0].(*SOA).Serial
-			// Check if there are no changes in zone
-			if qser >= serial {
+			// Check if there are no changes in zone: the server's serial is
+			// not newer than ours in RFC 1982 serial number arithmetic
+			if int32(serial-qser) <= 0 {
 				c <- &Envelope{in.Answer, nil}
 				return
 			}
